@@ -45,6 +45,11 @@ def gen(tier, seed):
         add("conserve_%s" % tag, "c16-conserve", "conserves(%r, %s, %r)" % (shape, mp, envs), ["pre: " + pre],
             "accepted maps keep volume, per-species amounts, group environment, chemostat OR, edge set = groups sharing a face, surface = faces x h^2, centroid distance, no self-loop / duplicate (%s)" % desc,
             args, timeout=600)
+        if envs is None and len(ranges) <= 4:
+            for un in (1, 2):
+                add("units%d_%s" % (un, tag), "c16-conserve-units", "amounts_conserved(%r, %s, %d)" % (shape, mp, un), ["pre: " + pre],
+                    "species totals and total volume are conserved in SI when the state is given in other units than the system's (%s) (%s)" % (["", "state as a UnitArray in fmol", "network in mm/min/mmol, space in dm/s/mol, default state"][un], desc),
+                    args, timeout=600, viol="coarse-graining changes the physical amounts when state / network / space use other units than the system")
         add("ucg_%s" % tag, "c16-uncoarsegrain", "uncoarsegrain_ok(%r, %s, %r)" % (shape, mp, envs), ["pre: " + pre],
             "un-coarse-graining spreads each group value evenly (totals preserved, members equal, dropped cells 0) (%s)" % desc, args, timeout=600)
     return "\n".join(L), conds
